@@ -153,6 +153,11 @@ def run(out: Outcome) -> None:
         if i % 4 == 1:        # transient outlier followed by more data
             xs = [rng.gauss(0, 0.5) for _ in range(L)]
             xs[rng.randint(2, L - 1)] += rng.choice([6.0, -8.0, 15.0])
+        if i % 4 == 3:        # isolated outliers in a stationary stream: the MAP run length collapses for one step and then recovers
+            p = {**p, "min_num_instances": rng.choice([1, 2, 5]), "hazard": rng.choice([0.1, 0.3, 0.01])}
+            xs = [rng.gauss(p.get("prior_mean", 0.0), 0.3) for _ in range(L)]
+            for _ in range(rng.randint(1, 3)):
+                xs[rng.randint(3, L - 2)] += rng.choice([5.0, -6.0, 9.0])
         if i % 4 == 2:        # a far outlier (predictive densities underflow in linear space but not in log space)
             xs = [rng.gauss(0, 0.3) for _ in range(L)]
             xs[rng.randint(2, L - 1)] = rng.choice([45.0, 100.0, -60.0])
